@@ -709,6 +709,14 @@ Proof.
   destruct fam1, fam2; try discriminate; try reflexivity; injection E' as E'; f_equal; lia.
 Qed.
 
+(* the objects __init__ creates are the model's contexts of an empty result: every attribute at its universal value *)
+Theorem init_fields_model :
+  init_fields_gen true = ctx_of (mkRes [] [] [] [] []) 0 (KAbs 0) /\
+  init_fields_gen false = mkBctx (mkAddrVal true false []) (mkAddrVal true false []) (mkAddrVal true false []) (mkAddrVal true false [])
+                            ALL_TRANSACTION_TYPES MAX_UINT64z false (zrange 1 17) (zrange 0 16) false /\
+  new_AddrFieldValue_gen = addrval_of addr_universal_set.
+Proof. repeat split; vm_compute; reflexivity. Qed.
+
 Print Assumptions fee_store_read_back.
 Print Assumptions type_store_read_back.
 Print Assumptions addr_store_read_back.
